@@ -48,6 +48,27 @@ CHECKS = {
         note="Core module state is reset by re-executing the module (importlib.reload)",
         technique="explicit-state BFS against a reference memory model + exhaustive argument grids",
     ),
+    "C08": dict(
+        category="exploration",
+        text="For every device constructor, method and Core helper (45 callables, signatures read with inspect.signature from the working tree) every call shape Python accepts is generated (all positional/keyword splits, keyword permutations, subsets of omitted defaults) and transpiled; Python's own binder (Signature.bind) is the oracle for the IR node fields, and all accepted shapes with equal bindings must give byte-identical firmware.",
+        design_ref="DESIGN.md §2 C08",
+        note="host-only parameters (providers, timeout, newline, sleep_func) excluded; keyword permutations beyond 4 keywords limited to rotations + reversal",
+        technique="exhaustive enumeration of call shapes against inspect.signature binding",
+    ),
+    "C10": dict(
+        category="model_checking",
+        text="(1) Set-iteration order is made an explorer-owned choice by loading parser.py/emitter.py through an AST rewrite (ChoiceSet); all executions with <=1 (quick) / <=2 (thorough) non-default iteration orders are run per corpus script and must emit identical bytes. (2) BFS over parse()/emit() call histories (depth 2/3) against fresh-process outputs plus a deep fingerprint of module-level state, emit() idempotence, interleaved parse/emit. (3) A second transpilation run re-entrantly at every call boundary / line of the first. (4) real PYTHONHASHSEED subprocesses as a cross-check.",
+        design_ref="DESIGN.md §2 C10",
+        note="assumes set iteration is the only hash-seed dependent behaviour (dicts are insertion ordered); corpus of 12 scripts",
+        technique="stateless exploration with deviation bounding over iteration-order choice points + BFS over call histories + single-preemption schedule enumeration",
+    ),
+    "C12": dict(
+        category="fault_enumeration",
+        text="The real target() is driven over the full grid (platform/board validity x upload x PlatformIO present/absent x 6 script kinds) with a fault injected at every single step of its pipeline (thorough: ordered pairs); recorder/fault-injector wraps subprocess.run, tempfile.mkdtemp and the pathlib writers; monitors check validation-first, PlatformIO only on request, artefacts (return value, main.cpp, ini read back), process order, no effect after a failure and propagation of every failure.",
+        design_ref="DESIGN.md §2 C12",
+        note="the wrapped seams are assumed to be the only ways target() touches the outside world",
+        technique="exhaustive single-fault (and ordered pair) injection over the configuration grid with effect-trace monitors",
+    ),
 }
 
 NOT_YET = {}
